@@ -23,7 +23,7 @@ RULE = ("random inputs per loader: manual = random dict; empirical = random obse
 ASSUMPTIONS = ["marginal support: S = product of S_i with [kmin_i, kmax_i-1] <= S_i <= [kmin_i, kmax_i] (half-open or closed both accepted)",
                "sampling mode decided by Pearson chi-square, p>=1e-4 held, one escalation with 4x samples, p<1e-6 violated",
                "exact comparisons at 1e-12"]
-HEADLINE = ["loaders", "manual", "empirical", "function", "marginal_direct", "marginal_sampling", "dispatcher_path", "dispatcher_equal_checks",
+HEADLINE = ["loaders", "manual", "empirical", "function", "marginal_direct", "marginal_sampling", "dispatcher_path", "dispatcher_equal_checks", "recreate_checks", "update_history_checks",
             "box_points_evaluated", "chi2_tests", "chi2_escalations"]
 REQUIRED = {t: {"manual": 10, "empirical": 10, "function": 10, "marginal_direct": 10, "marginal_sampling": 5,
                 "dispatcher_equal_checks": 30} for t in ("quick", "thorough")}
@@ -91,6 +91,15 @@ def run_case(case):
         if type(via).__name__ != cls.__name__:
             res.violate("dispatcher-returned-wrong-loader", typ=typ, got=type(via).__name__); return None
         j1, j2 = d.jdd, via.jdd
+        if compare and isinstance(j1, dict):
+            # history on one loader: building the table again (what the dispatcher does once anyway) must not change it
+            first = dict(j1)
+            for _ in range(rng.choice([1, 2])):
+                sut(f"{cls.__name__}.create_jdd (again)", d.create_jdd)
+                res.count("recreate_checks")
+                if not (isinstance(d.jdd, dict) and _same(d.jdd, first)):
+                    res.violate("building-the-table-again-changed-the-distribution", typ=typ, first=repr(sorted(first.items()))[:300], again=repr(sorted(d.jdd.items()))[:300] if isinstance(d.jdd, dict) else repr(d.jdd)); return None
+            j1 = d.jdd
         if compare:
             res.count("dispatcher_equal_checks")
             if not (isinstance(j1, dict) and isinstance(j2, dict) and _same(j1, j2)):
@@ -124,6 +133,18 @@ def run_case(case):
             res.violate("empirical-frequencies-differ", got=repr(got)[:300], want={k: float(v) for k, v in want.items()}, n=n)
         support, probs = want, set(want.values())
         sample["jds"] = jds[:40]
+        # history: new observations on the same loader object
+        if res.verdict == "held":
+            L = sut("JointDegreeEmpirical(params)", gcmpy.JointDegreeEmpirical, {N.JDS: list(jds), N.MOTIF_SIZES: sizes})
+            for _ in range(rng.choice([1, 2])):
+                pool2 = [tuple(rng.randrange(0, 5) for _ in range(T)) for _ in range(rng.randint(1, 6))]
+                jds2 = [rng.choice(pool2) for _ in range(rng.choice([1, 4, 30]))]
+                L.empirical_jds = list(jds2)
+                sut("create_jdd (new observations)", L.create_jdd)
+                res.count("update_history_checks")
+                want2 = {k: c / len(jds2) for k, c in Counter(jds2).items()}
+                if not _same(L.jdd, want2):
+                    res.violate("empirical-loader-does-not-follow-new-observations", got=repr(L.jdd)[:300], want=want2, history=["construct", "empirical_jds = ...", "create_jdd()"]); break
     elif kind == "function":
         res.count("function")
         bounds = [(lo, lo + rng.randint(0, 7 if T < 3 else 4)) for lo in (rng.randint(0, 3) for _ in range(T))]
